@@ -407,7 +407,7 @@ struct HdrSession {
                         return;
                 }
                 if (g.has_extra) {
-                        if (gh->extra_len != g.extra.size() || (sx && memcmp(sx->data, g.extra.data(), g.extra.size()))) {
+                        if (gh->extra_len != g.extra.size() || (sx && (sx->len < g.extra.size() || memcmp(sx->data, g.extra.data(), g.extra.size())))) {
                                 rr.fail("C19.read_extra", strf("extra field: length %u (reference %zu) or content differs after %u grow rounds", gh->extra_len, g.extra.size(), grows));
                                 return;
                         }
@@ -415,11 +415,11 @@ struct HdrSession {
                         rr.fail("C19.read_extra", "extra_len non-zero for a header without FEXTRA");
                         return;
                 }
-                if (g.has_name && sn && (strnlen((char *) sn->data, sn->len) != g.name.size() || memcmp(sn->data, g.name.c_str(), g.name.size() + 1))) {
+                if (g.has_name && sn && (sn->len < g.name.size() + 1 || strnlen((char *) sn->data, sn->len) != g.name.size() || memcmp(sn->data, g.name.c_str(), g.name.size() + 1))) {
                         rr.fail("C19.read_name", strf("name differs from the reference parser's (%zu bytes) after %u grow rounds", g.name.size(), grows));
                         return;
                 }
-                if (g.has_comment && sc && (strnlen((char *) sc->data, sc->len) != g.comment.size() || memcmp(sc->data, g.comment.c_str(), g.comment.size() + 1))) {
+                if (g.has_comment && sc && (sc->len < g.comment.size() + 1 || strnlen((char *) sc->data, sc->len) != g.comment.size() || memcmp(sc->data, g.comment.c_str(), g.comment.size() + 1))) {
                         rr.fail("C19.read_comment", strf("comment differs from the reference parser's (%zu bytes) after %u grow rounds", g.comment.size(), grows));
                         return;
                 }
